@@ -1086,7 +1086,11 @@ class SimConn:
                 raise asyncio.TimeoutError()
             else:
                 task = asyncio.ensure_future(c.handle(self.node, req))
-                await asyncio.wait([task, gate], return_when=asyncio.FIRST_COMPLETED)
+                try:
+                    await asyncio.wait([task, gate], return_when=asyncio.FIRST_COMPLETED)
+                except asyncio.CancelledError:
+                    task.cancel()  # the client gave up on the request: the model's handler goes with it
+                    raise
                 if gate.done() and not task.done():
                     task.cancel()
                     gate.result()
